@@ -934,6 +934,9 @@ class Interp(object):
                 return None
             ty = kwargs.get('type', args[1] if len(args) > 1 else None)
             data = kwargs.get('data', args[3] if len(args) > 3 else None)
+            if data is not None:
+                # an add_property that carries initial values was executed here (kept for rules about initial values that are never applied)
+                DATA_SITES_EXECUTED.add((env.get('__rel__'), getattr(node, 'lineno', 0)))
             if name in A['properties'] and isinstance(ty, str) and A.get('types', {}).get(name) not in (None, ty):
                 # ParticleArray.add_property keeps the array (and so the type) of a property that exists: the type asked for is silently not what the array has
                 A.setdefault('type_conflicts', []).append((name, A['types'][name], ty, node, env.get('__rel__')))
@@ -1173,6 +1176,7 @@ BUILTINS = {'list': _list, 'set': _set, 'frozenset': _frozenset, 'iter': _iter, 
             'True': True, 'False': False, 'None': None, 'object': Opaque('object'), 'RuntimeError': Opaque('RuntimeError'), 'ValueError': Opaque('ValueError'),
             'NotImplementedError': Opaque('NotImplementedError'), 'KeyError': Opaque('KeyError'), 'TypeError': Opaque('TypeError')}
 EXTERNAL_CALLS = {}
+DATA_SITES_EXECUTED = set()
 EXTERNAL_CONSTANTS = {'numpy.inf': float('inf'), 'numpy.Inf': float('inf'), 'math.inf': float('inf'), 'numpy.pi': 3.141592653589793, 'math.pi': 3.141592653589793}
 ATTR_HOOKS = []      # (interp, value, attr, node, env) -> value or NotImplemented: attribute access on model objects of plug-in models
 STORE_HOOKS = []     # (interp, value, attr, new) -> True when the store was handled
